@@ -221,6 +221,25 @@ def scale_oplists(pid, seed):
                     {"k": "probe", "is": [1, 2], "extra": p150 + ["http://big.example/003/late/1"]}])
         out.append([{"k": "new", "recs": big, "delim": ":"}, {"k": "new", "recs": [{"p": "P003", "u": "http://x.example/3/", "ps": ["x3"], "us": ["HTTP://BIG.EXAMPLE/004/"], "pat": None}], "delim": ":"},
                     {"k": "chain", "is": [1, 2], "cs": True}, {"k": "chain", "is": [1, 2], "cs": False}, {"k": "chain", "is": [2, 1], "cs": False}])
+    if pid in ("C05", "C09", "C10"):
+        # pairs of spellings on which upper(), lower() and casefold() DISAGREE about "equal up to case"
+        pairs = [("id", "\u0131d"), ("ID", "\u0131d"), ("\u0130d", "i\u0307d"), ("\u039f\u0394\u039f\u03a3", "\u03bf\u03b4\u03bf\u03c2"), ("stra\u00dfe", "STRASSE"),
+                 ("\u01c6", "\u01c5"), ("K", "\u212a"), ("s", "\u017f"), ("\ufb01sh", "FISH"), ("\u0149", "\u02bcN")]
+        for k, (a, b) in enumerate(pairs):
+            ua, ub = f"http://case.example/{a}/", f"http://case.example/{b}/"
+            r1 = {"p": a, "u": ua, "ps": [], "us": [], "pat": None}
+            r2 = {"p": b, "u": "http://other.example/" + str(k) + "/", "ps": ["extra" + str(k)], "us": [ub], "pat": None}
+            ex = [a + ":1", b + ":1", ua + "1", ub + "1", "extra" + str(k) + ":1"]
+            if pid == "C05":
+                out.append([{"k": "new", "recs": [r1], "delim": ":", "extra": ex},
+                            {"k": "add", "i": 1, "rec": r2, "cs": False, "mg": True, "via": "record", "extra": ex}, {"k": "fresh", "i": 1},
+                            {"k": "add", "i": 1, "rec": dict(r2, p=b.swapcase(), ps=[]), "cs": False, "mg": False, "via": "record", "extra": ex}])
+            else:
+                out.append([{"k": "new", "recs": [r1], "delim": ":", "extra": ex}, {"k": "new", "recs": [r2], "delim": ":", "extra": ex},
+                            {"k": "chain", "is": [1, 2], "cs": False, "extra": ex}, {"k": "chain", "is": [2, 1], "cs": False, "extra": ex},
+                            {"k": "add", "i": 3, "rec": {"p": b, "u": "http://other.example/" + str(k) + "/", "ps": ["late" + str(k)], "us": [], "pat": None}, "cs": False, "mg": True, "via": "record", "extra": ex},
+                            {"k": "add", "i": 4, "rec": {"p": a, "u": ua, "ps": ["late" + str(k)], "us": [], "pat": None}, "cs": True, "mg": True, "via": "record", "extra": ex},
+                            {"k": "probe", "is": [1, 2, 3, 4], "extra": ex + ["late" + str(k) + ":1"]}])
     if pid in ("C11", "C10"):
         big110 = big_records(110)
         out.append([{"k": "new", "recs": big110, "delim": ":"},
@@ -229,6 +248,11 @@ def scale_oplists(pid, seed):
                     {"k": "remap_curie", "i": 1, "m": [["p004", "shared"], ["p005", "shared2"], ["s003", "p077x"]]},
                     {"k": "remap_curie", "i": 1, "m": [[f"p{i:03d}", f"p{i + 1:03d}"] for i in range(20, 60)] + [["p060", "tail"]]},   # a chain of 41 renames
                     {"k": "remap_curie", "i": 1, "m": list(reversed([[f"p{i:03d}", f"p{i + 1:03d}"] for i in range(20, 60)] + [["p060", "tail"]]))}])
+    if pid == "C11":
+        # a chain of 1200 renames (listed head first), four of its names known to the converter
+        n = 1200
+        recs = [{"p": f"r{i:04d}", "u": f"http://c.example/{i}/", "ps": [], "us": [], "pat": None} for i in (0, 1, n // 2, n - 1)]
+        out.append([{"k": "new", "recs": recs, "delim": ":"}, {"k": "remap_curie", "i": 1, "m": [[f"r{i:04d}", f"r{i + 1:04d}"] for i in range(n)]}])
     if pid in ("C12", "C10"):
         m130 = [[f"http://old.example/{i:03d}/", f"https://new.example/{i:03d}/"] for i in range(130)]
         m130[7] = ["http://big.example/007/", "https://new.example/007/"]
